@@ -306,8 +306,19 @@ func (g *svcGen) service(fi int) {
 					continue
 				}
 				thrown[e] = true
-				fn.Throws = append(fn.Throws, &idlgen.Field{Name: g.local(tu, "e", stressThrowNames),
-					Type: &idlgen.Type{Kind: idlgen.Named, Named: &idlgen.NamedRef{File: e.File, Name: e.Name}}})
+				tf := &idlgen.Field{Name: g.local(tu, "e", stressThrowNames),
+					Type: &idlgen.Type{Kind: idlgen.Named, Named: &idlgen.NamedRef{File: e.File, Name: e.Name}}}
+				// a requiredness keyword in a throws list is accepted (warning) and ignored: the member of <fn>_result is
+				// optional whatever is written (parser.parseThrows + checker.CheckFunctions); the schema says optional
+				switch x := g.r.Intn(100); {
+				case x < 25:
+					tf.Req = idlgen.Required
+					g.count("svc.throws.keyword.required")
+				case x < 40:
+					tf.Req = idlgen.Optional
+					g.count("svc.throws.keyword.optional")
+				}
+				fn.Throws = append(fn.Throws, tf)
 			}
 			g.ids(fn.Throws, false)
 			g.count(fmt.Sprintf("svc.fn.throws.%d", len(fn.Throws)))
@@ -633,5 +644,48 @@ func keywordProgram() (*idlgen.Program, map[*idlgen.Function]string) {
 	svcs[3].Functions = append(svcs[3].Functions, &idlgen.Function{Name: "underscore_args", Ret: base(idlgen.I32),
 		Args: []*idlgen.Field{fld(1, "_result", idlgen.I32), fld(2, "_args", idlgen.I32), fld(3, "nil", idlgen.String)}})
 	f.Services = svcs
+	return &idlgen.Program{Files: []*idlgen.File{f}}, map[*idlgen.Function]string{}
+}
+
+// requirednessProgram: the aimed unit for requiredness keywords in argument and throws lists.
+//
+//	exception Denied { 1: i32 code, 2: string why }   exception Busy { 1: string msg }
+//	service Booking {
+//	  i32  reserve(1: required string who, 2: optional i32 n, 3: i32 m) throws (1: required Denied d, 2: optional Busy b, 3: Busy c)
+//	  void cancel(1: optional string who) throws (5: required Busy b)
+//	  Denied probe() throws (1: required Denied d)
+//	}
+func requirednessProgram() (*idlgen.Program, map[*idlgen.Function]string) {
+	ref := func(n string) *idlgen.Type { return &idlgen.Type{Kind: idlgen.Named, Named: &idlgen.NamedRef{File: 0, Name: n}} }
+	req := func(f *idlgen.Field, r idlgen.Req) *idlgen.Field { f.Req = r; return f }
+	thr := func(id int16, name, exc string, r idlgen.Req) *idlgen.Field {
+		return &idlgen.Field{ID: id, HasID: true, Name: name, Type: ref(exc), Req: r}
+	}
+	f := &idlgen.File{Path: "a.thrift", GoNS: "preq"}
+	f.Structs = []*idlgen.Struct{
+		{Kind: 'e', Name: "Denied", Fields: []*idlgen.Field{fld(1, "code", idlgen.I32), fld(2, "why", idlgen.String)}},
+		{Kind: 'e', Name: "Busy", Fields: []*idlgen.Field{fld(1, "msg", idlgen.String)}}}
+	f.Services = []*idlgen.Service{{Name: "Booking", Functions: []*idlgen.Function{
+		{Name: "reserve", Ret: base(idlgen.I32),
+			Args:   []*idlgen.Field{req(fld(1, "who", idlgen.String), idlgen.Required), req(fld(2, "n", idlgen.I32), idlgen.Optional), fld(3, "m", idlgen.I32)},
+			Throws: []*idlgen.Field{thr(1, "d", "Denied", idlgen.Required), thr(2, "b", "Busy", idlgen.Optional), thr(3, "c", "Busy2", idlgen.Default)}},
+		{Name: "cancel", Args: []*idlgen.Field{req(fld(1, "who", idlgen.String), idlgen.Optional)}, Throws: []*idlgen.Field{thr(5, "b", "Busy", idlgen.Required)}},
+		{Name: "probe", Ret: ref("Denied"), Throws: []*idlgen.Field{thr(1, "d", "Denied", idlgen.Required)}},
+	}}}
+	// two throws members of one function must not share their type (duplicate case in the type switch, BATCH-notes D10)
+	f.Structs = append(f.Structs, &idlgen.Struct{Kind: 'e', Name: "Busy2", Fields: []*idlgen.Field{fld(1, "msg", idlgen.String)}})
+	return &idlgen.Program{Files: []*idlgen.File{f}}, map[*idlgen.Function]string{}
+}
+
+// mustRejectProgram: a throws member that collides with the synthesized `success` of a value-returning function, by
+// name ("success-name") or by id ("id-0"): rejected by the checker since fix ef66a8a.
+func mustRejectProgram(kind string) (*idlgen.Program, map[*idlgen.Function]string) {
+	t := &idlgen.Field{ID: 1, HasID: true, Name: "success", Type: &idlgen.Type{Kind: idlgen.Named, Named: &idlgen.NamedRef{File: 0, Name: "X"}}}
+	if kind == "id-0" {
+		t.ID, t.Name = 0, "e"
+	}
+	f := &idlgen.File{Path: "a.thrift", GoNS: "prej",
+		Structs:  []*idlgen.Struct{{Kind: 'e', Name: "X", Fields: []*idlgen.Field{fld(1, "msg", idlgen.String)}}},
+		Services: []*idlgen.Service{{Name: "S", Functions: []*idlgen.Function{{Name: "g", Ret: base(idlgen.I32), Throws: []*idlgen.Field{t}}}}}}
 	return &idlgen.Program{Files: []*idlgen.File{f}}, map[*idlgen.Function]string{}
 }
